@@ -155,7 +155,7 @@ def worker(case):
     d = vcanon.diff(exp, got)
     if d:
         probs.append(("parsed-design-differs:%s:%s" % (d[0], tag), d[1][:400]))
-    for c, dd in wf.wf_netlist(n):
+    for c, dd in wf.wf_netlist(n) + wf.shared_metadata(n):
         probs.append(("malformed-netlist:%s:%s" % (c, tag), dd))
     return {"key": key, "nontrivial": True, "outcome": "ok", "problems": probs, "transitions": 1}
 
